@@ -114,5 +114,37 @@ Theorem C06_matrix_generic : forall (bi : train -> train -> res R) diag (l : lis
 Proof. exact matrix_gen_symmetric. Qed.
 Print Assumptions C06_matrix_generic.
 
+From PS Require Lem_MultiAPI2.
+Import Lem_MultiAPI2.
+(* SPIKE multivariate profile: both one-sided limits at every time are the mean of the pair profiles' limits; well-formed from t_start to t_end *)
+Theorem C06_spike_profile_is_mean_of_pairs : forall (eps : R) (cy : bool) (m : R) (ri : bool) (l : list train) (ts te : R), (2 <= length l)%nat -> Forall (wtrain ts te) l -> exists P : pwl, spike_profile_multi ROps eps cy false m ri l None = Ok P /\ wf_pwl P /\ nthF ROps (fst (fst P)) 0 = ts /\ lastF ROps (fst (fst P)) = te /\ (forall t : R, ts <= t < te -> pwl_right ROps (fst (fst P)) (snd (fst P)) (snd P) t = Some (sumF ROps (map (fun p : nat * nat => let Q := spike_profile_bi ROps eps cy false m ri (nth_train ROps l (fst p)) (nth_train ROps l (snd p)) in match pwl_right ROps (fst (fst Q)) (snd (fst Q)) (snd Q) t with | Some v => v | None => 0 end) (pairs_of (seq 0 (length l)))) * (1 / INR (length (pairs_of (seq 0 (length l))))))) /\ (forall t : R, ts < t <= te -> pwl_left ROps (fst (fst P)) (snd (fst P)) (snd P) t = Some (sumF ROps (map (fun p : nat * nat => let Q := spike_profile_bi ROps eps cy false m ri (nth_train ROps l (fst p)) (nth_train ROps l (snd p)) in match pwl_left ROps (fst (fst Q)) (snd (fst Q)) (snd Q) t with | Some v => v | None => 0 end) (pairs_of (seq 0 (length l)))) * (1 / INR (length (pairs_of (seq 0 (length l))))))).
+Proof. exact spike_multi_profile_limits. Qed.
+Print Assumptions C06_spike_profile_is_mean_of_pairs.
+(* ... on the strictly increasing union of the pair breakpoints *)
+Theorem C06_spike_profile_breakpoints : forall (eps : R) (cy : bool) (m : R) (ri : bool) (l : list train) (ts te : R), (2 <= length l)%nat -> Forall (wtrain ts te) l -> exists P : pwl, spike_profile_multi ROps eps cy false m ri l None = Ok P /\ fst (fst P) = sort_unique ROps (concat (map (fun p : nat * nat => fst (fst (spike_profile_bi ROps eps cy false m ri (nth_train ROps l (fst p)) (nth_train ROps l (snd p))))) (pairs_of (seq 0 (length l))))) /\ ssorted (fst (fst P)).
+Proof. exact spike_multi_breakpoints. Qed.
+Print Assumptions C06_spike_profile_breakpoints.
+
 Example C06_nonvacuous : Forall (mtrain 0 1) [([1/8; 1/2], 0, 1); ([1/8], 0, 1); ([], 0, 1); ([1/8; 1/2], 0, 1)].
 Proof. repeat (first [apply Forall_nil | apply Forall_cons]); unfold mtrain; cbn [tr_spikes tr_start tr_end fst snd]; repeat split; try lra; valid_tac. Qed.
+
+(* ---- executed instance (Q, extracted to OCaml and run against /repo) = the real-number functions
+   the theorems above are about: kernel-checked parametricity bridge (Bridge.v).  qL = map Q2R etc. ---- *)
+From Coq Require Import QArith Qreals.
+From PS Require Import Bridge.
+Local Close Scope Q_scope.
+Theorem C06_exec_isi_profile_multi_transfer : forall (eps : Q) (cy rc : bool) (m : Q) (l : list train) (idx : option (list nat)), rmap qLL (isi_profile_multi QOps eps cy rc m l idx) = isi_profile_multi ROps (Q2R eps) cy rc (Q2R m) (map qTrain l) idx.
+Proof. exact isi_profile_multi_transfer. Qed.
+Print Assumptions C06_exec_isi_profile_multi_transfer.
+Theorem C06_exec_spike_profile_multi_transfer : forall (eps : Q) (cy rc : bool) (m : Q) (ri : bool) (l : list train) (idx : option (list nat)), rmap qLLL (spike_profile_multi QOps eps cy rc m ri l idx) = spike_profile_multi ROps (Q2R eps) cy rc (Q2R m) ri (map qTrain l) idx.
+Proof. exact spike_profile_multi_transfer. Qed.
+Print Assumptions C06_exec_spike_profile_multi_transfer.
+Theorem C06_exec_spike_sync_profile_multi_transfer : forall (eps : Q) (cy rc : bool) (mt m : Q) (l : list train) (idx : option (list nat)), rmap (map q3) (spike_sync_profile_multi QOps eps cy rc mt m l idx) = spike_sync_profile_multi ROps (Q2R eps) cy rc (Q2R mt) (Q2R m) (map qTrain l) idx.
+Proof. exact spike_sync_profile_multi_transfer. Qed.
+Print Assumptions C06_exec_spike_sync_profile_multi_transfer.
+Theorem C06_exec_isi_distance_multi_transfer : forall (eps : Q) (cy rc : bool) (m : Q) (iv : option (Q * Q)) (l : list train) (idx : option (list nat)), rmap Q2R (isi_distance_multi QOps eps cy rc m iv l idx) = isi_distance_multi ROps (Q2R eps) cy rc (Q2R m) (qIv iv) (map qTrain l) idx.
+Proof. exact isi_distance_multi_transfer. Qed.
+Print Assumptions C06_exec_isi_distance_multi_transfer.
+Theorem C06_exec_isi_distance_matrix_transfer : forall (eps : Q) (cy rc : bool) (m : Q) (iv : option (Q * Q)) (l : list train) (idx : option (list nat)), rmap (map qL) (isi_distance_matrix QOps eps cy rc m iv l idx) = isi_distance_matrix ROps (Q2R eps) cy rc (Q2R m) (qIv iv) (map qTrain l) idx.
+Proof. exact isi_distance_matrix_transfer. Qed.
+Print Assumptions C06_exec_isi_distance_matrix_transfer.
